@@ -35,6 +35,21 @@ def run (op impl : String) : Ans :=
       let p := (l.getD (l.length - 1) 0).toNat
       let cls := if l.isEmpty then "ssl30-empty" else if p + 1 ≤ l.length then (if p = 255 then "ssl30-valid-255" else "ssl30-valid") else "ssl30-too-long"
       { model := m, verdict := if impl == s then "ok" else "FAIL:" ++ cls, tags := [cls] ++ (if l.length ≥ 2 then ["nt"] else []) }
+  | ["dec", vh, ns, hx] =>
+    match bytesOfHex vh, ns.toNat?, bytesOfHex hx with
+    | some [v1, v0], some n, some bs =>
+      let vers := v1.toNat * 256 + v0.toNat
+      let l := bs.map fun b => BitVec.ofNat 8 b.toNat
+      let m := decryptVerdict vers n l
+      let s := specDecrypt vers n l
+      let show_ (r : Bool × Nat) : String := if r.1 then "1 " ++ toString r.2 else "0"
+      let vtag := if vers = 0x0300 then "ssl30" else if vers = 0x0301 then "tls10" else if vers = 0x0302 then "tls11" else "tls12"
+      let cls := if s.1 then "dec-valid-" ++ vtag else
+        (if (specUnpadFor vers l).2 = 255#8 then "dec-split-mismatch-" else "dec-badpad-") ++ vtag
+      { model := show_ m
+        verdict := if impl == show_ s then "ok" else if s.1 then "FAIL:dispatch-rejects-valid-" ++ vtag else "FAIL:dispatch-accepts-invalid-" ++ vtag
+        tags := [cls, "nt"] }
+    | _, _, _ => { model := "bad-op", verdict := "skip" }
   | _ => { model := "bad-op", verdict := "skip" }
 
 end BfeVerif.C43
